@@ -32,11 +32,11 @@ var profileWeights = map[string]map[string]float64{
 		"p.timejump": 0.10, "p.round": 0.03, "p.crash": 0.02, "p.shadowdiff": 0.25,
 	},
 	"deposits": {
-		"block": 10, "btc.mine": 4, "rel.hashes": 5, "rel.deposit": 8, "rel.baddeposit": 6, "el.params": 2, "rel.pubkey": 0.6, "rel.bundle": 2,
+		"block": 10, "btc.mine": 4, "rel.hashes": 5, "rel.deposit": 8, "rel.baddeposit": 6, "el.params": 2, "rel.pubkey": 0.6, "rel.bundle": 2, "probe.queries": 1.5,
 		"p.crash": 0.05, "p.engine": 0.03, "p.round": 0.03, "p.shadowdiff": 0.15,
 	},
 	"withdrawals": {
-		"block": 10, "btc.mine": 3, "rel.hashes": 4, "el.bridge": 7, "rel.withdraw": 9, "rel.badwithdraw": 5, "rel.pubkey": 0.4, "rel.deposit": 1, "rel.bundle": 1.5,
+		"block": 10, "btc.mine": 3, "rel.hashes": 4, "el.bridge": 7, "rel.withdraw": 9, "rel.badwithdraw": 5, "rel.pubkey": 0.4, "rel.deposit": 1, "rel.bundle": 1.5, "probe.queries": 0.5,
 		"p.crash": 0.04, "p.engine": 0.03, "p.round": 0.03, "p.shadowdiff": 0.15,
 	},
 	"proposal": {
@@ -48,7 +48,7 @@ var profileWeights = map[string]map[string]float64{
 		"p.timejump": 0.10, "p.byz": 0.20, "p.shadowdiff": 0.25,
 	},
 	"fuzz": {
-		"block": 10, "probe.fuzztx": 10, "probe.fuzzproposal": 4, "rel.bundle": 1, "el.adversarial": 6, "el.locking": 2, "rel.hashes": 1, "rel.deposit": 1, "el.bridge": 1, "rel.withdraw": 1,
+		"block": 10, "probe.fuzztx": 10, "probe.fuzzproposal": 4, "rel.bundle": 1, "rel.group": 2.5, "el.adversarial": 6, "el.locking": 2, "rel.hashes": 1, "rel.deposit": 1, "el.bridge": 1, "rel.withdraw": 1,
 		"p.byz": 0.10, "p.junk": 0.10, "p.shadowdiff": 0.30,
 	},
 	"enum": {
@@ -79,7 +79,7 @@ var propertyProfiles = map[string][]string{
 	"C16": {"relayer", "admission", "export"},
 	"C17": {"deposits", "withdrawals"},
 	"C18": {"export", "locking", "withdrawals", "relayer"},
-	"C19": {"fuzz", "proposal", "determinism", "locking"},
+	"C19": {"fuzz", "proposal", "determinism", "locking", "relayer"},
 	"C20": {"deposits", "export"},
 }
 
